@@ -1,7 +1,10 @@
 //! hv_hydro2 <mode> --seed N --cases N --out DIR --tier quick|thorough [--replay FILE]
 //! modes: c32 (trusted order/retry assumptions), c33 (monotone / bounded-value annotations),
 //!        c31 (slices), c34 (atomic acknowledgements)
+mod c31;
 mod c32;
+mod c33;
+mod c34;
 mod fmt;
 mod flowgen;
 
@@ -12,6 +15,9 @@ fn main() {
     hv_common::quiet_panics();
     let mut rec = match args.mode.as_str() {
         "c32" => c32::run(&args),
+        "c33" => c33::run(&args),
+        "c31" => c31::run(&args),
+        "c34" => c34::run(&args),
         m => {
             eprintln!("unknown mode {m}");
             std::process::exit(2)
